@@ -67,6 +67,7 @@ class Registry:
         self.assumptions = []
         self.lemmas = []
         self.object_invariants = {}
+        self.param_defaults = {}   # parameter name -> type, used when a contract does not declare a parameter
         self.field_facts = {}      # attribute name -> callable(Val) -> z3 fact: type invariants assumed at every read (A-TYPEINV)
 
     def contract(self, target, **kw):
